@@ -1334,9 +1334,14 @@ def markers_sane(g):
     a non-instance triple with v its source or target and v a variable (cf. `_preconfigure`)"""
     vs = g.variables()
     pushed = set()
+    top = g.top
     for t, es in g.epidata.items():
+        if sum(isinstance(e, layout.Push) for e in es) > 1:
+            return False                # a decoder leaves at most one Push on a triple ...
         for e in es:
             if isinstance(e, layout.Push):
+                if e.variable == top:
+                    return False        # ... and never opens the top's node a second time
                 if t[1] == ':instance' or e.variable not in (t[0], t[2]) or e.variable not in vs or t[2] not in vs:
                     return False
                 if e.variable in pushed:
